@@ -124,6 +124,16 @@ func (e *Engine) VerifyFunc(con *Contract, workdir string, timeoutS int, all boo
 	u := &Unit{Key: key, Con: con, Fn: fn, Spec: ps}
 	x := e.newExec(u, ps.Mode)
 	res.World = x.w
+	if con.ImplicitOnly != nil {
+		var ks []string
+		for k := range con.ImplicitOnly {
+			if k != "-" {
+				ks = append(ks, k)
+			}
+		}
+		sort.Strings(ks)
+		x.notes = append(x.notes, "implicit safety obligations of "+key+" are checked only for the kinds ["+strings.Join(ks, " ")+"]; the others (nil dereference, index, slice bounds, ...) are assumed to hold")
+	}
 	if !e.noPrune {
 		x.feas = newFeasSolver()
 		defer x.feas.close()
